@@ -71,6 +71,10 @@ pub struct Project {
     /// raw replacement for the generated zinoma.yml (C14 arrangements)
     #[serde(default)]
     pub raw_yaml: Option<String>,
+    /// import key -> path to write in zinoma.yml instead of the plain relative path (e.g. a
+    /// symbolic link to the imported project's directory)
+    #[serde(default)]
+    pub import_paths: BTreeMap<String, String>,
 }
 
 #[derive(Serialize, Deserialize, Clone, Debug, PartialEq)]
@@ -133,6 +137,28 @@ pub struct Scenario {
 }
 
 impl Scenario {
+    /// Some imports go through a symbolic link lying in the importing project's directory
+    /// (`vendor-lib -> ../p1`): the same project, reached by another route. Decided by a hash
+    /// of the names, not by the generator's stream.
+    pub fn import_through_links(&mut self) {
+        let mut links = vec![];
+        for pi in 0..self.projects.len() {
+            let imports = self.projects[pi].imports.clone();
+            for (key, idx) in imports {
+                if idx == pi || self.projects[pi].raw_yaml.is_some() {
+                    continue;
+                }
+                let h = simrt::stamp::fnv(simrt::stamp::FNV_INIT, format!("{}>{}>{}", self.label, self.projects[pi].dir, key).as_bytes());
+                if h % 3 != 0 {
+                    continue;
+                }
+                let link = format!("vendor-{}", key);
+                links.push(FileSpec { path: format!("{}/{}", self.projects[pi].dir, link), kind: FileKind::Symlink(rel_from(&self.projects[pi].dir, &self.projects[idx].dir)) });
+                self.projects[pi].import_paths.insert(key, link);
+            }
+        }
+        self.files.extend(links);
+    }
     pub fn target(&self, p: usize, name: &str) -> Option<&Target> {
         self.projects.get(p)?.targets.iter().find(|t| t.name == name)
     }
@@ -272,7 +298,7 @@ impl Scenario {
         if !proj.imports.is_empty() {
             let mut im = Map::new();
             for (key, idx) in &proj.imports {
-                im.insert(key.clone(), json!(rel_from(&proj.dir, &self.projects[*idx].dir)));
+                im.insert(key.clone(), json!(proj.import_paths.get(key).cloned().unwrap_or_else(|| rel_from(&proj.dir, &self.projects[*idx].dir))));
             }
             root.insert("imports".into(), Value::Object(im));
         }
